@@ -697,7 +697,7 @@ func (fx *FuncCtx) applyContract(st *State, con *Contract, callee *types.Func, r
 	var rs []sval
 	for i := 0; i < sig.Results().Len(); i++ {
 		r := sig.Results().At(i)
-		v, facts := fx.freshVal("ret_"+callee.Name(), r.Type())
+		v, facts := fx.freshValAny("ret_"+callee.Name(), r.Type())
 		for _, f := range facts {
 			st.assume(f)
 		}
